@@ -486,11 +486,26 @@ async fn poll_once<'a>(f: &mut CallFut<'a>) -> Option<Result<(), Error>> {
 
 pub fn run(input: &T) -> T {
     let input = input.clone();
-    // the importer owns threads: run on a plain thread and catch panics by joining
-    let h = std::thread::spawn(move || run_inner(&input));
-    match h.join() {
+    // the importer owns threads: run on a plain thread; a panic is `(-777)`, a case that does not
+    // finish within the watchdog time is `(-778)` (its threads are abandoned)
+    let (txr, rxr) = std::sync::mpsc::channel();
+    std::thread::spawn(move || {
+        let r = std::panic::catch_unwind(std::panic::AssertUnwindSafe(|| run_inner(&input)));
+        let _ = txr.send(r.unwrap_or_else(|_| vcommon::t_panic()));
+    });
+    match rxr.recv_timeout(std::time::Duration::from_secs(120)) {
         Ok(t) => t,
-        Err(_) => vcommon::t_panic(),
+        Err(_) => T::l(vec![T::i(-778)]),
+    }
+}
+
+/// opens both gates when dropped, so that an unwinding harness never leaves the importer's
+/// thread parked inside a port
+struct OpenGates(Arc<Shared>);
+impl Drop for OpenGates {
+    fn drop(&mut self) {
+        self.0.db_gate.release();
+        self.0.ver_gate.release();
     }
 }
 
@@ -574,6 +589,7 @@ fn run_inner(input: &T) -> T {
                             }
                         }
                     };
+                    let _open = OpenGates(sh.clone());
                     if let Some(g) = gate {
                         g.arm();
                     }
